@@ -109,18 +109,21 @@ Finish ==
   /\ hist' = Append(hist, [a |-> "Finish"])
   /\ UNCHANGED <<api, ids, req, route, down, attempt, todo, tried, work, results, reply, recvs, nfault>>
 
-Next ==
-  \/ /\ phase = "idle"     \* (guard repeated outside the quantifiers: TLC would enumerate them in every state)
-     /\ \E a \in Apis, im \in IdModes, rq \in (SUBSET TPs) \ {{}}, dn \in SUBSET Backends :
-          \E rt \in [rq -> Backends \cup {None}] :
-             Start(a, im, rq, [tp \in TPs |-> IF tp \in rq THEN rt[tp] ELSE None], dn)
-  \/ /\ phase = "connect"
-     /\ \E g \in todo, t \in Backends \cup {"fail"} : ConnectGroup(g, t)
-  \/ /\ phase = "exchange"
-     /\ \E w \in work : \/ \E codes \in [w.tps -> Codes] : Exchange(w, "codes", codes)
-                     \/ \E k \in {"drop", "garbage"} : Exchange(w, k, [tp \in w.tps |-> -1])
-  \/ Merge
-  \/ Finish
+\* one named operator per action so that TLC's coverage reports them by name
+\* (guards repeated outside the quantifiers: TLC would otherwise enumerate them in every state)
+StartAny ==
+  /\ phase = "idle"
+  /\ \E a \in Apis, im \in IdModes, rq \in (SUBSET TPs) \ {{}}, dn \in SUBSET Backends :
+       \E rt \in [rq -> Backends \cup {None}] :
+          Start(a, im, rq, [tp \in TPs |-> IF tp \in rq THEN rt[tp] ELSE None], dn)
+ConnectAny ==
+  /\ phase = "connect"
+  /\ \E g \in todo, t \in Backends \cup {"fail"} : ConnectGroup(g, t)
+ExchangeAny ==
+  /\ phase = "exchange"
+  /\ \E w \in work : \/ \E codes \in [w.tps -> Codes] : Exchange(w, "codes", codes)
+                      \/ \E k \in {"drop", "garbage"} : Exchange(w, k, [tp \in w.tps |-> -1])
+Next == StartAny \/ ConnectAny \/ ExchangeAny \/ Merge \/ Finish
 Spec == Init /\ [][Next]_vars
 
 P == INSTANCE ProxyFanoutProps WITH api <- api, req <- req, reply <- reply, recvs <- recvs,
